@@ -475,6 +475,7 @@ def run_check(spec, tier, seed):
     mismatches = []
     oracle_viol = []
     dist = {}
+    all_results = []
     if harness_ok:
         cases = list(spec.get('corpus', lambda: [])()) + list(spec['gen_cases'](rng, tier))
         byid = {c['id']: c for c in cases}
@@ -488,6 +489,7 @@ def run_check(spec, tier, seed):
                 res = run_both(sub, cs, pid + '-' + sub)  # model output will be missing; impl traces still usable
             for c in cs:
                 it, mt = res[c['id']]
+                all_results.append((c, it, mt))
                 stats['evaluations'] += 1
                 for k, v in (c.get('tags') or {}).items():
                     dist.setdefault(k, {}).setdefault(str(v), 0)
@@ -519,6 +521,16 @@ def run_check(spec, tier, seed):
                 if len(samples) < 3 and it and not it[0].startswith('PARSE-'):
                     samples.append({'cfg': c['cfg'], 'history': ' '.join(c['hist'])[:400], 'impl_trace': it[:8]})
 
+    # second-phase oracles that need to run more cases on the implementation (e.g. paired runs)
+    if harness_ok and spec.get('post'):
+        def run_impl(sub, cs, tag):
+            r = run_both(sub, cs, pid + '-' + tag)
+            return {cid: v[0] for cid, v in r.items()}
+        try:
+            extra = spec['post'](all_results, run_impl, rng, tier, stats)
+            oracle_viol += extra
+        except Exception as e:       # a crash of the oracle machinery is a broken check, not a pass
+            broken.append(('oracle-machinery', repr(e)))
     known = load_known_findings()
     known_open = [k for k in known.get('open', []) if k.get('property') == pid]
 
